@@ -141,15 +141,15 @@ class Drift(vlib.MachineryError):
     """the real code satisfies the dictionary semantics but its layout/growth no longer matches the transcription"""
 
 
-def map_flow_a(ctx, exe, cfg, nkeys, capmax, workers=8, timeout=1500, per_state=2):
+def map_flow_a(ctx, exe, cfg, nkeys, capmax, workers=8, timeout=1500, per_state=2, simulate=None, depth=None):
     """TLC explores cfg; each VCASE (state) = history + all successor ops; every (state, op) is replayed into
     map.c under `per_state` of the key realisations (rotating), in chunks."""
     reals = [Realisation(n, 1000 * (i + 1), nkeys, capmax) for i, n in enumerate(REALISATIONS)]
     head = []
     for r in reals:
         head += r.defs()
-    r = ctx.tlc_must_pass("Map", cfg, workers=workers, timeout=timeout, heap="4g")
-    if len(r.vcases) != r.distinct:
+    r = ctx.tlc_must_pass("Map", cfg, workers=workers, timeout=timeout, heap="4g", simulate=simulate, depth=depth)
+    if not simulate and len(r.vcases) != r.distinct:
         raise vlib.MachineryError("expected one VCASE per distinct state: %d vs %d" % (len(r.vcases), r.distinct))
     nstates = nrep = bad = drift = 0
     driftex = None
@@ -889,6 +889,7 @@ def run(ctx):
     if not q:
         ths = [
             _spawn(map_flow_a, errs, ctx, exe, "MC_Map_thorough.cfg", 4, 8, workers=8, per_state=2),
+            _spawn(map_flow_a, errs, ctx, exe, "MC_Map_sim16.cfg", 6, 16, workers=2, per_state=2, simulate=150, depth=21),
             _spawn(lambda: ctx.tlc_must_pass("Map", "MC_Map_hist.cfg", workers=6, timeout=2400, heap="4g"), errs),
         ]
         for t in ths:
